@@ -312,6 +312,74 @@ func init() {
 			}
 		}})
 
+	register(&Rule{ID: "C10.amounts", Props: []string{"C10", "C17", "C11"}, Floor: 4,
+		Doc: "the amount minted+delegated / unbonded is exactly the truncated difference between target and current stake, in the branch where that difference is positive",
+		Run: func(e *Engine, r *RuleRun) {
+			fn := r.Need("keeper.Keeper.RebalanceBondTokenWeights")
+			if fn == nil {
+				return
+			}
+			fk, fa := FuncKey(fn), e.FA(fn)
+			mint := r.One(fn, "mint", "types.BankKeeper.MintCoins")
+			vu := r.One(fn, "validate unbond", "types.StakingKeeper.ValidateUnbondAmount")
+			if mint == nil || vu == nil {
+				return
+			}
+			diff := func(t *Term) (a, b *Term, ok bool) {
+				if t.IsCall("math.LegacyDec.TruncateInt") && t.Args[0].IsCall("math.LegacyDec.Sub") {
+					return t.Args[0].Args[0], t.Args[0].Args[1], true
+				}
+				return nil, nil, false
+			}
+			coin := singleCoin(argT(fa, mint, 2))
+			if coin != nil && coin.IsCall("sdk.NewCoin") {
+				exp, cur, ok := diff(coin.Args[1])
+				okG := ok && exp.Op == "phi" && strings.HasPrefix(exp.Name, "expectedBondAmount") && cur.Op == "phi" && strings.HasPrefix(cur.Name, "currentBondedAmount") &&
+					fa.HasFact(mint, exp.String(), ">", cur.String())
+				r.Check(okG, fk, "amount minted = trunc(target - current), where target > current", "(expected - current).TruncateInt() under expected.GT(current)", "the amount minted and delegated is "+coin.Args[1].String()+", not the truncated positive difference between the validator's target and current alliance stake", r.P(mint))
+			} else {
+				r.Bad(fk, "amount minted", "cannot recognise the minted coin", nil, r.P(mint))
+			}
+			amt := argT(fa, vu, 3)
+			cur, exp, ok := diff(amt)
+			okU := ok && exp.Op == "phi" && strings.HasPrefix(exp.Name, "expectedBondAmount") && cur.Op == "phi" && strings.HasPrefix(cur.Name, "currentBondedAmount") &&
+				fa.HasFact(vu, exp.String(), "<", cur.String())
+			r.Check(okU, fk, "amount unbonded = trunc(current - target), where target < current", "(current - expected).TruncateInt() under expected.LT(current)", "the amount asked to be unbonded is "+amt.String()+", not the truncated positive difference between current and target: it can exceed what the module's delegation is worth (staking then rejects it and end-of-block fails) or miss the target", r.P(vu))
+			// current stake is the token value of the module's own delegation to this validator
+			for _, b := range fn.Blocks {
+				for _, in := range b.Instrs {
+					if phi, isPhi := in.(*ssa.Phi); isPhi && phi.Comment == "currentBondedAmount" {
+						okC := false
+						for _, ed := range phi.Edges {
+							t := fa.Term(ed)
+							if t.IsCall("stakingtypes.Validator.TokensFromShares") && len(t.FindCalls("types.StakingKeeper.GetDelegation")) > 0 {
+								okC = true
+							} else if !t.IsCall("math.LegacyZeroDec") {
+								okC = false
+								break
+							}
+						}
+						r.Check(okC, fk, "current stake = token value of the module's delegation (zero if none)", "validator.TokensFromShares(GetDelegation(module, val).Shares) or 0", "the current alliance stake of the validator is not read from the module's own staking delegation", r.P(phi))
+					}
+					if phi, isPhi := in.(*ssa.Phi); isPhi && phi.Comment == "expectedBondAmount" {
+						okE := true
+						n := 0
+						for _, ed := range phi.Edges {
+							t := fa.Term(ed)
+							switch {
+							case t.IsCall("math.LegacyZeroDec"), t.Eq(fa.Term(phi)):
+							case t.IsCall("math.LegacyDec.Add") && t.Args[0].Eq(fa.Term(phi)):
+								n++
+							default:
+								okE = false
+							}
+						}
+						r.Check(okE && n == 1, fk, "target = sum of per-asset contributions starting from zero", "expected := 0; expected = expected.Add(contribution)", "the target stake is not accumulated from zero by adding one contribution per asset", r.P(phi))
+					}
+				}
+			}
+		}})
+
 	register(&Rule{ID: "C11.mint", Props: []string{"C11", "C10"}, Floor: 5,
 		Doc: "minted amount == delegated amount, for the module address, from the module account; delegate follows mint",
 		Run: func(e *Engine, r *RuleRun) {
